@@ -12,6 +12,7 @@ from rv.gen import geoms
 
 ANCHORS = ("evaluation/affinity.py", "geometry/operations.py", "geometry/conversion.py")
 THOROUGH_SHARDS = 12
+AMBIENT_TESTS = ["tests/test_evaluation", "tests/test_geometry"]
 _installed = False
 _orig = None
 _orig_buffer = None
